@@ -344,8 +344,11 @@ def _run(ck, hashtree, J):
     sizes = list(range(1, maxn + 1))
     sizes += [9, 11, 12, 13, 15, 16] if thorough else [9, 13, 16]   # beyond the stated bound (5-node chains)
 
-    # ---- exhaustive part
+    # ---- exhaustive part (stated bound first, then the random orders, then the sizes beyond the bound)
     for n in sizes:
+        if n > maxn and not ck.extra.get("_random_done"):
+            _random_orders(ck, hashtree, J)
+            ck.extra["_random_done"] = 1
         W = World(hashtree, rng, n)
         ck.mon("genuine-tree-wellformed")
         bad = W.wellformed()
@@ -385,12 +388,13 @@ def _run(ck, hashtree, J):
             break
         if n == maxn:
             ck.extra["stated_bound_complete"] = True
-    ck.extra["exhaustive_bound"] = {"max_leaves": maxn, "state_depth": depth, "also_enumerated_sizes": sizes[maxn:],
+    ck.extra["exhaustive_bound"] = {"max_leaves": maxn, "state_depth": 3 if thorough else depth, "also_enumerated_sizes": sizes[maxn:],
                                     "complete": bool(ck.extra.get("stated_bound_complete")), "all_sizes_complete": complete}
     ck.exhaustive = bool(ck.extra.get("stated_bound_complete"))
 
-    # ---- seeded random validation orders, up to 64 leaves
-    _random_orders(ck, hashtree, J)
+    # ---- seeded random validation orders, up to 64 leaves (normally already run above)
+    if not ck.extra.pop("_random_done", None):
+        _random_orders(ck, hashtree, J)
 
 
 def _enumerate_target(ck, hashtree, J, W, W2, seq, ks, tgt):
@@ -531,7 +535,7 @@ def _random_orders(ck, hashtree, J):
     ntrees = {"quick": 400, "thorough": 1500}[ck.tier]
     special = [1, 2, 3, 4, 5, 7, 8, 9, 15, 16, 17, 31, 32, 33, 47, 63, 64]
     for ti in range(ntrees):
-        if ck.out_of_time():
+        if ck.out_of_time() and ti >= 20:       # a minimum always runs so that the verdict covers validation orders
             ck.observe("random-orders-stopped-on-budget")
             break
         n = rng.choice(special) if rng.random() < 0.6 else rng.randint(1, 64)
@@ -636,11 +640,19 @@ def _random_orders(ck, hashtree, J):
         ck.case("random-order", key=(n, tuple(order)), nontrivial=n > 1, sample={"nleaves": n, "order": order[:20]})
 
 
-# MUST_CATCH (planted in a scratch copy via VF_REPO):
-#  1. skip the root comparison (`if i == 0: continue` moved before the duplicate check / parent==0 never compared)
-#  2. no rollback on BadHashError (except clause only re-raises)
-#  3. accept when only one sibling is known (missing sibling -> `continue` instead of NotEnoughHashesError)
-#  4. duplicate of a known node not compared (conflicting value for a known node silently ignored)
-#  5. leaves=/hashes= conflict check removed
-#  6. needed_hashes omits the top sibling
-#  7. empty_leaf_hash ignores its index (padding) -- only breaks HashTree/IncompleteHashTree agreement if one side changes
+# MUST_CATCH -- planted in a scratch copy (VF_REPO) on top of the proposed IndexError-rollback fix; quick tier, seed 0:
+#  caught  parent==root never compared (skip the root comparison)          -> forged-leaf-accepted, forged-node-stored, inconsistent-tree
+#  caught  no rollback at all in the except clause                         -> state-changed-on-reject
+#  caught  rollback only for BadHashError (not NotEnoughHashesError)       -> state-changed-on-reject
+#  caught  missing sibling -> `continue` (accept with one sibling known)   -> forged-leaf-accepted, forged-node-stored
+#  caught  duplicate of a known node not compared                          -> forged-leaf-accepted
+#  caught  needed_hashes() omits the top siblings                          -> genuine-rejected, genuine-multi-leaf-rejected
+#  caught  left/right not sorted before pair_hash                          -> genuine-rejected, forged-leaf-accepted, inconsistent-tree
+#  caught  levels processed top-down                                       -> forged-leaf-accepted, forged-node-stored, genuine-rejected
+#  caught  IncompleteHashTree built one level short                        -> genuine-rejected
+#  caught  HashTree pads with empty_leaf_hash(0)                           -> genuine-tree-malformed
+#  caught  computed parents not added to remove_upon_failure               -> state-changed-on-reject
+#  caught  parent comparison skipped for even-numbered nodes               -> state-changed-on-reject
+#  MISSED (by design) leaves=/hashes= conflict check removed: the leaves= value then wins and is validated normally; the
+#          statement leaves "which of two conflicting arguments is the accepted one" open -> counted as dont_care.
+# Unchanged tree: out-of-range-index-not-rolled-back (genuine, see hashtree.py:477).
